@@ -54,7 +54,10 @@ func main() {
 		return
 	}
 	self, _ := os.Executable()
-	env := &core.Env{Prop: *prop, Tier: *tier, Seed: *seed, VerifDir: *verifDir, WorkDir: *workDir, Self: self, Workers: *workers, Repo: *repo}
+	env := &core.Env{Prop: *prop, Tier: *tier, Seed: *seed, VerifDir: *verifDir, OutDir: *verifDir, WorkDir: *workDir, Self: self, Workers: *workers, Repo: *repo}
+	if o := os.Getenv("VERIF_OUT"); o != "" {
+		env.OutDir = o
+	}
 	if env.WorkDir == "" {
 		d, err := os.MkdirTemp("", "mon-"+*prop+"-")
 		if err != nil {
